@@ -104,6 +104,11 @@ def check_one(case, ctx, deep):
             rawm = [(maps.omask(e.members()), maps.pmask(i.members())) for e, i in raw]
             ctx.check(sorted(rawm) == sorted(gotm), 'context.neighbors(raw)', plain,
                       lambda: f'raw form differs for {list(labels)}: {rawm} vs {gotm}')
+            if len(labels) >= 2 and all(len(x) == 1 for x in labels):
+                # a str is an iterable of one-character labels - also when their concatenation is a label itself
+                got_s = ctx.call('context.neighbors(str)', plain, context.neighbors, ''.join(labels))
+                ctx.check(sorted((maps.omask(e), maps.pmask(i)) for e, i in got_s) == sorted(gotm), 'context.neighbors(str)', plain,
+                          lambda: f'neighbors({"".join(labels)!r}) = {got_s!r} differs from neighbors({list(labels)})')
             if deep and isinstance(got, list):
                 lib.wreck(got)   # the list belongs to the caller; the next answer may not depend on it
                 got2 = ctx.call('context.neighbors', plain, context.neighbors, list(labels))
@@ -112,7 +117,7 @@ def check_one(case, ctx, deep):
 
 
 def plan(tier, seed):
-    return tablecheck.plan(tier, seed, hyp_quick=(12, 150), hyp_thorough=(16, 1500), wide=True, tall=True)
+    return tablecheck.plan(tier, seed, hyp_quick=(12, 150), hyp_thorough=(16, 1500), wide=True, tall=True, odd=True)
 
 
 def run(task, ctx):
